@@ -611,3 +611,86 @@ def check_mutable_defaults(run: Run, rule: str, src, functions=None):
                       f'what one call leaves in it shows up in every later call that omits the argument', fact='default never changed '
                       'nor handed out', loc=loc_of(f.module.path, f.node))
     return n
+
+
+# ---------------------------------------------------------------------------------------------------
+# rejections propagate: a library exception raised below a call is not turned into a value on the way up
+def swallowing_handlers(fn: ast.FunctionDef, catches) -> list:
+    """(Try, handler, caught names) for the handlers of `fn` that catch one of the exceptions `catches(handler names) -> bool`
+    decides on and that can end without raising (fall off their end, return, break or continue)"""
+    from ..runtime import may_complete_normally
+    out = []
+    for t in ast.walk(fn):
+        if not isinstance(t, ast.Try):
+            continue
+        for h in t.handlers:
+            if h.type is None:
+                names = ['<bare>']
+            else:
+                elts = h.type.elts if isinstance(h.type, ast.Tuple) else [h.type]
+                names = [e.id if isinstance(e, ast.Name) else e.attr if isinstance(e, ast.Attribute) else '?' for e in elts]
+            if not catches(names):
+                continue
+            leaves = may_complete_normally(h.body) or any(isinstance(n, (ast.Return, ast.Break, ast.Continue)) for st in h.body for n in ast.walk(st))
+            if leaves:
+                out.append((t, h, names))
+    return out
+
+
+def _selftest_swallowing():
+    src_ = ("def f(x):\n    try:\n        return g(x)\n    except LibError:\n        if x:\n            raise\n        return 0\n"
+            "def k(x):\n    try:\n        return g(x)\n    except LibError as e:\n        raise Other(str(e)) from e\n")
+    tree = ast.parse(src_)
+    a = swallowing_handlers(tree.body[0], lambda names: 'LibError' in names)
+    b = swallowing_handlers(tree.body[1], lambda names: 'LibError' in names)
+    if len(a) != 1 or b:
+        raise AnalysisError('common', 'self-test of the swallowed-rejection rule failed')
+
+
+def check_rejections_propagate(run: Run, rule: str, src, cg, raised_in: list, what: str, entry: str = 'Parser._translate'):
+    """`raised_in`: qualified names of the functions whose library exception must reach the caller of `entry` (e.g. the cycle
+    check).  For every function on the path from `entry`, every handler that catches that exception class, one of its bases, or
+    everything, and whose guarded block can reach one of those functions, must end by raising."""
+    _selftest_swallowing()
+    lib = library_exceptions(src)
+    targets = [src.func(q) for q in raised_in if src.has_func(q)]
+    if not targets:
+        raise AnalysisError(rule, f'none of {raised_in} found')
+    # the classes those functions raise, with their bases inside the library hierarchy
+    from ..callgraph import raises_of
+    raised = set()
+    for t in targets:
+        for name, _ in raises_of(t.node):
+            if name in lib:
+                raised.add(name)
+    if not raised:
+        raise AnalysisError(rule, f'{raised_in} raise no library exception')
+    wide = set()
+    for name in raised:
+        ci = src.cls(name)
+        wide |= {getattr(c, 'name', str(c)).split('.')[-1] for c in src.mro(ci)}
+    wide |= {'Exception', 'BaseException', '<bare>'}
+    reach = cg.reachable([src.func(entry)])
+    n = 0
+    for key, (f, parent) in sorted(reach.items()):
+        if f.module.name.endswith('abstract_excel_in_python_class'):
+            continue
+        n += 1
+        sw = swallowing_handlers(f.node, lambda names: any(x in wide for x in names))
+        hit = []
+        for t, h, names in sw:
+            # can the guarded block reach one of the raising functions?
+            calls = [c for st in t.body for c in ast.walk(st) if isinstance(c, ast.Call)]
+            sites = [s for s in cg.sites.get(f.key, []) if any(s.node is c for c in calls)]
+            callees = [x for s in sites for x in s.targets]
+            inner = cg.reachable(callees) if callees else {}
+            if any(tt.key in inner for tt in targets) or any(s.how in ('unresolved',) for s in sites):
+                hit.append((t, h, names))
+        for t, h, names in hit:
+            run.bad(rule, f'{f.qualname}/except {",".join(names)}', 'rejection-swallowed',
+                    f'{f.qualname} catches {", ".join(names)} around a call that can reach {", ".join(raised_in)} and can go on without '
+                    f'raising: {what} is turned into a value instead of rejecting the workbook', loc=loc_of(f.module.path, h))
+        if not hit:
+            run.ok(rule, f.qualname, 'no handler between the rejection and the caller', nontrivial=False, loc=loc_of(f.module.path, f.node))
+    if n < 50:
+        raise AnalysisError(rule, f'only {n} functions on the translation path')
